@@ -6,7 +6,6 @@ tags) to the line machine and checks NoCrash / ErrorLineInRange (known defects a
 emits each sequence with its predicted outcome class.  The driver renders every sequence to text (seeded language
 pair, random payloads), runs the real entry point and records the outcome class; plus single-line mutations of
 well-formed documents, catalogued fault injections at every position, and seeded soups.  TLC judges the rows."""
-import copy
 import json
 import random
 
@@ -251,6 +250,10 @@ def run(chk):
     chk.extra["languages"] = sorted({m["l1"] for m in meta.values()})
     chk.extra["predicted_error_reasons"] = {w: sum(1 for c in cases if c["k"] == "error" and c["why"] == w)
                                             for w in sorted({c["why"] for c in cases if c["k"] == "error"})}
+    reasons = ["AND-STEP REQUIRES a previous step", "BAD-INDENT in multiline text", "Examples must only appear inside scenario outline",
+               "Malformed table", "Multi-line text before any step", "TABLE-START without step detected", "bad tag",
+               "Background supports no tags", "Second Background"]
+    chk.extra["spec_error_branches_never_reached"] = [w for w in reasons if not any(c["k"] == "error" and c["why"] == w for c in cases)]
     chk.extra["predicted_crash_sites"] = {w: sum(1 for c in cases if c["k"] == "crash" and c["site"] == w)
                                           for w in sorted({c["site"] for c in cases if c["k"] == "crash"})}
     chk.assumptions = ["renderings for C05 use only aliases that the keyword table reads unambiguously (alias collisions are C04's subject)",
